@@ -620,6 +620,20 @@ def gen_mixed(rng, tier, dist, n, tls=False, observers=True, refusals=True, canc
         if rng.random() < 0.8:
             b.disconnect(rng.random() < 0.7)
         out.append(b.scenario())
+    # always there (not left to the draw): logins that follow one another on one connection without REIN in between - each
+    # one the full exchange, TYPE for the configured type included - also after an accepted set_transfer_type
+    for k in range(4):
+        mode, rfc = cfgs[k % len(cfgs)] if cfgs else ALL_METHODS[k % 4]
+        b = S.Builder(rng, mode=mode, rfc=rfc, type="IA"[k % 2], tls=tls, resume=False)
+        b.connect(login=((b"first", b"pw1") if k < 2 else None))
+        b.login(b"carol", b"c")
+        if k % 2:
+            b.set_type("IA"[(k // 2) % 2], 200)
+        b.login(b"dave", b"d")
+        add_simple(b, rng, 200)
+        b.disconnect(True)
+        dist.add("call:login-after-login-without-REIN")
+        out.append(b.scenario())
     return out
 
 
